@@ -135,6 +135,8 @@ def install(reg):
             ("payload-kept", "implies('payload' in kwargs, self._payload == kwargs['payload'])"),
             ("payload-none", "implies(len(kwargs) == 0, self._payload is None)"),
             ("immutable", "self._immutable == True"),
+            # the bitfield view the caller asked for is the one the message is built with (parse relies on it)
+            ("view-stored", "self._parsebf == parsebitfield"),
         ] + LEN_CK_POST,
         raises={"UBXMessageError": None, "UBXTypeError": None},
         fresh_fields={"_length": ("bytesn", 2), "_checksum": ("bytesn", 2)},
@@ -257,8 +259,9 @@ def c15_set_attribute_single(arg):
         ensures=[("appends-exactly-the-field", f"len(self._payload) == len(old(self._payload)) + {n}"),
                  ("earlier-bytes-untouched", "self._payload[0:len(old(self._payload))] == old(self._payload)"),
                  ("offset-advances", f"result == offset + {n}")] + decodes,
+        # exactly the classes the constructor's handlers translate (ground obligation translation-complete)
         raises={k: None for k in ("TypeError", "OverflowError", "ValueError", "AttributeError", "IndexError", "error",
-                                  "UBXTypeError", "ZeroDivisionError")},
+                                  "UBXTypeError")},
         modifies=["self._payload", "self.x"])
     c.registry_setup = setup_registry
     return c
